@@ -180,6 +180,19 @@ def replay(ctx, st, idx):
         want = [model_arr(res['add'][0]), model_arr(res['add'][1]), model_arr(res['sub'][0]), model_arr(res['sub'][1])]
         if not all(same(w, g) for w, g in zip(want, got)):
             return ctx.violation(sig + 'values', f'+/- of shapes {s1},{s2} not component-wise broadcast', case)
+        # augmented assignment is the same operation: p += q leaves in p what p + q is (whatever the shapes and dtypes of the two)
+        try:
+            a2 = P(s1)
+            a2 += Q(s2)
+            b2 = P(s1)
+            b2 -= Q(s2)
+            got2 = [obs(a2.x), obs(a2.y), obs(b2.x), obs(b2.y)]
+        except ValueError:
+            got2 = [None] * 4
+        except Exception as ex:  # noqa
+            return ctx.violation(sig + 'augmented', f'+= / -= of shapes {s1},{s2} raised {ex!r}', case)
+        if not all(same(w, g) for w, g in zip(want, got2)):
+            return ctx.violation(sig + 'augmented', f'+= / -= of shapes {s1},{s2} differ from + / -', case)
     elif op == 'sep':
         # narrow integer dtypes with offsets beyond the square-overflow point: the distance must not wrap around
         for it, mul in ((np.int16, 100), (np.int32, 20000)):
@@ -192,6 +205,8 @@ def replay(ctx, st, idx):
                     return ctx.violation(sig + f'values|{it.__name__}', f'separation of {it.__name__} coordinate arrays is not the Euclidean distance', dict(case, dtype=it.__name__))
             except ValueError:
                 pass
+            except Exception as ex:  # noqa
+                return ctx.violation(sig + 'raises', f'separation of {it.__name__} coordinates of shapes {s1},{s2} raised {ex!r}', case)
         try:
             d = P(s1).separation(Q(s2))
             got = obs(np.asarray(d) ** 2)
@@ -199,6 +214,8 @@ def replay(ctx, st, idx):
             exact = np.allclose(np.asarray(d) ** 2, got[1], rtol=1e-12, atol=1e-9)
         except ValueError:
             got, exact = None, True
+        except Exception as ex:  # noqa
+            return ctx.violation(sig + 'raises', f'separation of shapes {s1},{s2} raised {ex!r}', case)
         want = model_arr(res)
         if not same(want, got) or not exact:
             return ctx.violation(sig + 'values', f'separation of shapes {s1},{s2} is not the Euclidean distance', case)
@@ -250,6 +267,16 @@ def wcs_roundtrips(ctx, rnd):
     ws.sip = Sip(a, b, None, None, [20.0, 20.0])
     ws.wcs.set()
     pool.append(('icrs', 'TAN-SIP', ws))
+    # a celestial WCS whose FIRST axis is the latitude (DEC--TAN, RA---TAN): an invertible celestial WCS like any other
+    from astropy.wcs import WCS
+    wl = WCS(naxis=2)
+    wl.wcs.ctype = ['DEC--TAN', 'RA---TAN']
+    wl.wcs.crval = [20.0, 150.0]
+    wl.wcs.crpix = [12.0, 9.0]
+    wl.wcs.cd = 4e-4 * np.array([[0.6, -0.8], [0.8, 0.6]])
+    wl.wcs.cunit = ['deg', 'deg']
+    wl.wcs.set()
+    pool.append(('icrs', 'TAN-latfirst', wl))
     for frame, proj, w in pool:
         for shape in ([], [0], [1], [3], [2, 3], [2, 2, 3]):
             for dtype in (np.int64, float):
